@@ -1682,7 +1682,7 @@ def df_slice(df, lb = None, ub = None, openclose = '(]', n = 1):
         boundaries = sorted(set([date for date in lb + ub if date is not None]))
         df = [d if is_pd(d) else pd.Series(d, boundaries) for d in df]
         if n > 1:
-            df = [pd.concat(df[i: i+n], axis = 1) for i in range(len(df))]
+            df = [pd.concat(df[i: i+n], axis = 1).sort_index() for i in range(len(df))]
             for d in df:
                 d.columns = range(d.shape[1])
     dfs = as_list(df)
